@@ -286,8 +286,34 @@ def run_num(case):
     return result(n, list(oc), fails)
 
 
+# ---- juxtaposition: two complete operands side by side inside every context
+UNITS = [['1'], ['"s"'], ['A1'], ['TRUE'], ['#N/A'], ['(', '1', ')'], ['(', 'A1', ')'], ['F(', '1', ')'], ['F(', ')'], ['{', '1', '}'], ['1', '%'],
+         ['(', '-', '1', ')'], ['{', '1', ',', '1', '}'], ['(', '1', '+', '1', ')']]
+CONTEXTS = [([], []), (['F('], [',', '1', ')']), (['F(', '1', ','], [')']), (['{'], ['}']), (['('], [')']), (['-'], []), ([], ['+', '1']), (['1', '*'], []),
+            (['F(', 'F('], [')', ')']), (['(', '('], [')', ')', '%'])]
+
+
+def juxta_cases(tier):
+    for i in range(len(UNITS)):
+        yield ['juxta', i]
+
+
+def run_juxta(case):
+    _, i = case
+    install_probe()
+    fails, oc, n = [], {}, 0
+    for j in range(len(UNITS)):
+        for pre, post in CONTEXTS:
+            for mid in ([], ['-'], ['(', '-', ')']):
+                toks = pre + UNITS[i] + mid + UNITS[j] + post
+                if mid == ['-']:
+                    continue        # X - Y is simply valid: covered by the soups
+                n += check_tokens(toks, '', fails, oc, 'juxta')
+    return result(n, list(oc), fails)
+
+
 def run_case(case):
-    return {'soup': run_soup, 'raw': run_raw, 'edit': run_edit, 'num': run_num}[case[0]](case)
+    return {'soup': run_soup, 'raw': run_raw, 'edit': run_edit, 'num': run_num, 'juxta': run_juxta}[case[0]](case)
 
 
 def run(ctx):
@@ -295,4 +321,5 @@ def run(ctx):
     ctx.explore(run_case, raw_cases(ctx.tier), chunksize=1, label='raw_string_chunks')
     ctx.explore(run_case, edit_cases(ctx.tier), chunksize=4, label='edited_formulas')
     ctx.explore(run_case, numeral_cases(ctx.tier), chunksize=2, label='numeral_chunks')
+    ctx.explore(run_case, juxta_cases(ctx.tier), chunksize=1, label='juxtaposed_operands')
     return {'strings_parsed': ctx.transitions}
